@@ -134,6 +134,47 @@ def r2_inverse(ctx):
             ctx.ob("R2", "resolve_predefined_entity:delegates", ok, "delegates to the XML table (calls: %s)" % [sym.short(c[2]) for c in cs], config=cfg)
 
 
+def r2b_copy_discipline(ctx):
+    """_escape copies bytes[pos..new_pos] before each replacement, continues at new_pos + 1 and appends the rest:
+    every input byte is either copied or replaced, exactly once."""
+    for cfg, F in ctx.facts.items():
+        b = ctx.body(F, "escape::_escape", "R2")
+        if b is None:
+            continue
+        loops = 0
+        okpos = True
+        okcopy = True
+        for p in ctx.paths(b):
+            if p[-1][0] != "loop":
+                continue
+            carried = p[-1][2].get("pos")
+            if carried is None:
+                continue
+            loops += 1
+            # pos := (pos' + i) + 1 with i the position() result of this iteration
+            good = carried[0] == "bin" and carried[1] == "Add" and carried[3] == ("c", "usize", 1) and carried[2][0] == "bin" and carried[2][1] == "Add" \
+                and carried[2][2][0] == "phi" and has_subterm(carried[2][3], lambda s: call_is(s, "position"))
+            okpos = okpos and good
+            ext = [c for c in calls(p) if name_is(c[2], "extend_from_slice")]
+            pre = [c for c in ext if has_subterm(c[3][1], lambda s: call_is(s, "index") and s[3][1][0] == "agg" and s[3][1][2] == "Range")]
+            g2 = len(pre) == 1 and pre[0][3][1] is not None
+            if g2:
+                rng = [s2 for s2 in sym.subterms(pre[0][3][1]) if call_is(s2, "index")][0][3][1]
+                g2 = rng[3][0][0] == "phi" and rng[3][1] == carried[2]
+            okcopy = okcopy and g2
+        ctx.ob("R2", "_escape:resume", loops >= 9 and okpos, "after a replacement scanning resumes right behind the replaced byte: pos = (pos + i) + 1 on all %d loop paths" % loops, config=cfg)
+        ctx.ob("R2", "_escape:copy-before", loops >= 9 and okcopy, "the untouched bytes[pos..pos+i] are copied before every replacement", config=cfg)
+        tails = 0
+        for p in ctx.paths(b):
+            r = ret_of(p)
+            if r is None or not (r[0] == "agg" and r[2] == "Owned"):
+                continue
+            tails += 1
+            rest = [c for c in calls(p) if name_is(c[2], "get") and has_subterm(c[3][1], lambda s: s[0] == "agg" and s[2] == "RangeFrom")]
+            ctx.ob("R2", "_escape:rest", len(rest) == 1, "the bytes after the last replacement are appended (bytes.get(pos..))", config=cfg)
+        ctx.ob("R2", "_escape:owned-exit", tails >= 1, "owned exits found", config=cfg)
+
+
 def r3_borrowed(ctx):
     for cfg, F in ctx.facts.items():
         b = ctx.body(F, "escape::unescape_with", "R3")
@@ -283,4 +324,4 @@ def r5_charref(ctx):
         ctx.ob("R5", "from_str_radix:std-reached", std >= 1, "the std parser is reached for unsigned input", config=cfg)
 
 
-RULES = [("R1", r1_sets), ("R2", r2_inverse), ("R3", r3_borrowed), ("R4", r4_pairing), ("R5", r5_charref)]
+RULES = [("R1", r1_sets), ("R2", r2_inverse), ("R2b", r2b_copy_discipline), ("R3", r3_borrowed), ("R4", r4_pairing), ("R5", r5_charref)]
